@@ -32,6 +32,7 @@ type Session struct {
 	KeepAlive       int64
 	ConnectTime     int64 // 0 none
 	Password        string
+	PasswordSecret  string // "namespace/name" (FRR-K8s mode)
 	SrcAddr         string
 	EBGPMultiHop    bool
 	BFDProfile      string
@@ -152,6 +153,9 @@ func (st *State) Expected() *Denotation {
 		}
 		if s.Password != "" {
 			n.Params["password"] = s.Password
+		}
+		if s.PasswordSecret != "" {
+			n.Params["password-secret"] = s.PasswordSecret
 		}
 		if s.SrcAddr != "" {
 			n.Params["update-source"] = s.SrcAddr
